@@ -109,6 +109,18 @@ def big_build(spec):
 
 
 @functools.lru_cache(maxsize=None)
+def long_chains(names=('x', 'y', 'z'), n=300):
+    """Left-deep chains of one connective with n operands (every seventh one negated): more than 256
+    occurrences of the same operator in one constraint."""
+    out = []
+    for op in ('OR', 'AND'):
+        t = names[0]
+        for i in range(1, n):
+            t = (op, t, names[i % 3] if i % 7 else ('NOT', names[i % 3], None))
+        out.append(t)
+    return out
+
+
 def deep_trees(names=('x', 'y', 'z')):
     """Constraint trees of depth 3 and 4: same-operator chains (left and right nested), mixed
     alternations and negations at every level."""
